@@ -285,7 +285,12 @@ impl Multiboot2BasicHeader {
     /// Calculates the checksum as described in the spec.
     #[must_use]
     pub const fn calc_checksum(magic: u32, arch: HeaderTagISA, length: u32) -> u32 {
-        (0x100000000 - magic as u64 - arch as u64 - length as u64) as u32
+        // The checksum is the value that makes the four header fields sum up to
+        // zero (mod 2^32), i.e., the two's complement of the sum of the others.
+        0_u32
+            .wrapping_sub(magic)
+            .wrapping_sub(arch as u32)
+            .wrapping_sub(length)
     }
 
     /// Returns the header magic.
